@@ -1,5 +1,6 @@
 import TF.Proofs.MerkleUnique
 import TF.Proofs.MerkleSched
+import TF.Proofs.GenBridgeMerkle
 /-!
 # C10 — Merkle trees build correctly under any schedule; honest proofs are complete and minimal
 
@@ -201,5 +202,59 @@ theorem out_of_range_is_error (filler : D) (cutoff : Nat) {ds : List D} {h : Nat
     tree_indexedLeafs_err H hm hsz hbad⟩
 example : (do let t ← fromDigests Hx 0 256 [1, 2, 3, 4]; t.inclusionProof [2, 4]) = .err .leafIndexInvalid := by
   decide +kernel
+
+/-! ## Regenerated-from-source bridge (tools/rs2lean_bt4.py, `TF/Gen/MerkleLoops.lean`)
+
+`CpuParallel::from_digests` is regenerated from the text of `merkle_tree.rs` on every run: digests opaque (`D`),
+`Tip5::hash_pair` = `H`, `Digest::default()` = `filler`, the lazily initialised `PARALLELIZATION_CUTOFF` = `cutoff`, the
+rayon `into_par_iter().map(..).collect_into_vec(..)` a pure `List.map`; `d0` is the value read after an out-of-range index
+(the `_ok` twin is false there).  Proofs: `TF/Proofs/GenBridgeMerkle.lean`. -/
+section GenBridge
+open TF.GenBridge.Merkle
+open TF.Gen.Loops (merkle_from_digests merkle_from_digests_ok)
+variable (d0 : D)
+
+/-- the full bridge (every cut-off, every input): the regenerated function with its `_ok` flag is the hand model with
+    the same fuel.  NOT proved in full — see `gen_from_digests_partial` -/
+def gen_from_digests_statement : Prop :=
+  ∀ (D : Type) (H : D → D → D) (d0 filler : D) (cutoff : Nat) (ds : List D),
+    (if merkle_from_digests_ok H d0 filler cutoff ds then
+        (merkle_from_digests H d0 filler cutoff ds).map fun r => match r with
+          | .ok nodes => Res.ok (Tree.mk nodes)
+          | .error e => if e == "TooFewLeafs" then Res.err .tooFewLeafs else Res.err .incorrectNumberOfLeafs
+      else some .panic)
+      = fromDigestsFuel H filler cutoff (ds.length + 1) ds
+
+/-- proved part of `gen_from_digests_statement`, for every `H`: (i) the two rejection arms for every input and cut-off (the second one in terms of the documented bit trick
+    `TF.isPow2 n = (n != 0 && n &&& (n - 1) == 0)` of `usize::is_power_of_two`, which the model states as `2^log2 n = n`);
+    (ii) the regenerated **sequential loop** `for i in (ROOT_INDEX..1+k).rev() { nodes[i] = hash_pair(nodes[2i], nodes[2i+1]) }`
+    never panics and is the hand model's `seqLoop` over `(ROOT_INDEX..1+k).rev()` for every node vector that contains all
+    the children (`2·(1+k) ≤ len < 2^64`).  Missing: the lock-step of the regenerated `while` level loop with
+    `parLoop`/`parLevel` and the assembly of the whole function (initial vector, `digests.len() - count_acc`); both are
+    tied by the driver: `build_env` ops evaluate the regenerated function with every cut-off next to the hand model
+    (GEN-MISMATCH) -/
+theorem gen_from_digests_partial (filler : D) (cutoff : Nat) (ds : List D) :
+    (ds = [] → merkle_from_digests H d0 filler cutoff ds = some (.error "TooFewLeafs") ∧
+      merkle_from_digests_ok H d0 filler cutoff ds = true) ∧
+    (ds ≠ [] → TF.isPow2 ds.length = false →
+      merkle_from_digests H d0 filler cutoff ds = some (.error "IncorrectNumberOfLeafs") ∧
+      merkle_from_digests_ok H d0 filler cutoff ds = true) ∧
+    (∀ (k : Nat) (nodes : List D), 2 * (1 + k) ≤ nodes.length → nodes.length < 2 ^ 64 →
+      TF.Gen.Loops.merkle_from_digests_for2_ok H d0 filler cutoff 1 k nodes = true ∧
+      seqLoop H nodes (List.range' ROOT_INDEX k).reverse
+        = .ok (TF.Gen.Loops.merkle_from_digests_for2 H d0 filler cutoff 1 k nodes)) := by
+  refine ⟨fun he => by subst he; exact gen_empty H d0 filler cutoff, fun hne hp => ?_, fun k nodes h1 h2 => ?_⟩
+  · exact gen_not_pow2 H d0 filler cutoff hne hp
+  · exact seq_eq H d0 filler cutoff k nodes h1 h2
+/-- non-vacuity: four leafs, sequential arm (cut-off 3 > 4/2) and a parallel level (cut-off 1), evaluated -/
+example : let nodesOf := fun (r : Option (Except String (List Nat))) => r.map fun x => match x with
+      | .ok n => n
+      | .error _ => []
+    nodesOf (merkle_from_digests Hx 0 0 3 [1, 2, 3, 4]) = some [0, 193, 14, 30, 1, 2, 3, 4] ∧
+    nodesOf (merkle_from_digests Hx 0 0 1 [1, 2, 3, 4]) = some [0, 193, 14, 30, 1, 2, 3, 4] ∧
+    merkle_from_digests_ok Hx 0 0 1 [1, 2, 3, 4] = true ∧
+    nodesOf (merkle_from_digests Hx 0 0 1 [1, 2, 3]) = some [] ∧ TF.isPow2 3 = false := by decide +kernel
+
+end GenBridge
 
 end TF.C10
